@@ -33,6 +33,18 @@ fn dist_spec(k: usize, p: &ClipVec) -> F {
     }
 }
 
+/// Postcondition of view_frustum::outcode: r < 64 and, for finite points, bit k is set iff the k-th frustum inequality is violated.
+pub(crate) fn spec_outcode_ok(p: &ClipVec, r: u8) -> bool {
+    let finite = p.0[0].is_finite() && p.0[1].is_finite() && p.0[2].is_finite() && p.0[3].is_finite();
+    let mut ok = r < 64;
+    let mut k = 0;
+    while k < 6 {
+        ok = ok && (!finite || ((r >> k) & 1 == 1) == (dist_spec(k, p) > 0.0));
+        k += 1;
+    }
+    ok
+}
+
 macro_rules! plane_harness {
     ($name:ident, $k:expr) => {
         #[kani::proof]
@@ -119,6 +131,36 @@ fn clip_outcode_matches_planes() {
         k += 1;
     }
     assert!(v.outcode < 64 && outcode(&p) == v.outcode);
+    assert!(v.pos.0 == p.0 && v.attrib.to_bits() == a.to_bits());
+}
+
+// @ob props=C03,C02 tier=thorough kind=P cfg=core-std timeout=3600
+// @fn view_frustum::outcode
+// @clause contract of view_frustum::outcode (in place): the result is < 64 and, for every finite point, bit k is set iff the k-th frustum inequality is violated
+#[cfg(not(verif_skip_clip_outcode_contract))]
+#[kani::proof_for_contract(view_frustum::outcode)]
+#[kani::unwind(8)]
+fn clip_outcode_contract() {
+    let p: ClipVec = [kani::any(), kani::any(), kani::any(), kani::any()].into();
+    let _ = outcode(&p);
+}
+
+// @ob props=C03,C02 tier=quick kind=P cfg=core-std timeout=600
+// @fn ClipVert::new
+// @clause modular: against the CONTRACT of view_frustum::outcode alone (its body replaced by the contract), ClipVert::new establishes the type invariant outcode <=> frustum inequalities for every finite position and stores position and attribute unchanged
+#[cfg(not(verif_skip_clip_vert_new_modular))]
+#[kani::proof]
+#[kani::stub_verified(view_frustum::outcode)]
+#[kani::unwind(8)]
+fn clip_vert_new_modular() {
+    let p = any_pos();
+    let a: F = kani::any();
+    let v = ClipVert::new(vertex(p, a));
+    kani::cover!(v.outcode == 0);
+    kani::cover!(v.outcode != 0);
+    assert!(spec_outcode_ok(&p, v.outcode));
+    let [x, y, z, w] = p.0;
+    assert!((v.outcode == 0) == (-w <= z && z <= w && -w <= x && x <= w && -w <= y && y <= w));
     assert!(v.pos.0 == p.0 && v.attrib.to_bits() == a.to_bits());
 }
 
